@@ -277,7 +277,7 @@ Definition prog (name : string) : list ws := wire_prog name wire_progs.
 Definition prog_vbint_fill : list ws := prog "vbint.fill".
 
 (* the receiver and the environment of each wire type *)
-Definition env_of (w : wt) (v : value) (id : N) : wenv :=
+Definition wenv_of (w : wt) (v : value) (id : N) : wenv :=
   match w with
   | WBool => {| e_v := WVb (valB v); e_id := id; e_self_fill := fill_bool (valB v); e_self_width := 1 |}
   | Bin => {| e_v := WVs (valS v); e_id := id; e_self_fill := fill_bin (valS v); e_self_width := 2 + List.length (valS v) |}
